@@ -599,6 +599,10 @@ func (ex *Exec) callsiteObligations(st *State, fr *Frame, key, short string, ord
 				ex.errors = append(ex.errors, fmt.Sprintf("%s: call-site obligation %s: %v", funcKey(ex.top), cr.Label, err))
 				continue
 			}
+			if ex.callReqHit == nil {
+				ex.callReqHit = map[*Clause]bool{}
+			}
+			ex.callReqHit[cr] = true
 			ex.check(st, fr, "callsite", cr.Label, t, cr.Props, "call-site obligation at "+short+": "+cr.Text, ex.pos(pos))
 		}
 	}
@@ -690,6 +694,7 @@ func (ex *Exec) havocAll(st *State, external bool) {
 	} else {
 		st.epochAll++
 	}
+	st.epochDirty = true
 }
 
 // ---------------------------------------------------------------- mod sets
@@ -1294,7 +1299,8 @@ func (ex *Exec) doAppend(st *State, fr *Frame, s, t Val, sty, tty types.Type) Va
 		}
 		return na
 	}
-	ex.writeCheck(st, fr, memName(es), SlRg(s.T), fits, "append in place", "")
+	// (appending nothing writes nothing, even when it "fits" a nil slice)
+	ex.writeCheck(st, fr, memName(es), SlRg(s.T), And(fits, Gt(tlen, IntLit(0))), "append in place", "")
 	naA := mkCase("A", SlOff(s.T))
 	// in place: everything outside the appended window is unchanged
 	baseA := Add(SlOff(s.T), SlLen(s.T))
